@@ -116,6 +116,10 @@ def signature(func, variadic=True, markup=True, safe=False):
     else:
         arg_names, arg_varargs, arg_keywords, arg_defaults = arg_spec
         arg_kwdefault = {}
+    # the instance of a bound method is not a parameter of the call
+    # (also when a partial fixes positional arguments of the method)
+    if inspect.ismethod(func) and func.__self__ is not None:
+        arg_names = arg_names[1:]
 
     if not arg_defaults or not arg_names:
         defaults = {}
@@ -148,10 +152,6 @@ def signature(func, variadic=True, markup=True, safe=False):
        #defaults.update(_fixed)
         defaults = dict((k,v) for (k,v) in defaults.items() if k not in _fixed)
         defaults.update(dict((X+k,v) for (k,v) in _fixed.items()))
-
-    if inspect.ismethod(func) and func.__self__ is not None:
-        # then it's a bound method
-        explicit = explicit[1:] #XXX: correct to remove 'self' ?
 
     if variadic:
         varargs = arg_varargs or ''
